@@ -371,6 +371,27 @@ def main(argv):
             else:
                 oracle_new.append((req, impl[i], model[i] if model is not None and i < len(model) else None, ifail))
 
+    # what was actually generated: operations, sizes, response classes of the real code
+    from collections import Counter
+    ops, sizes, classes = Counter(), Counter(), Counter()
+    buckets = [(0, "0"), (2, "1-2"), (4, "3-4"), (8, "5-8"), (16, "9-16"), (64, "17-64"), (256, "65-256"), (4096, "257-4096")]
+    for i, req in enumerate(reqs):
+        parts = req.split("\t")
+        op = parts[0] + ("." + parts[1] if parts[0] == "total" and len(parts) > 1 else "")
+        ops[op] += 1
+        n = sum(len(a) // 2 if a[:1] == "x" else len(a) for a in parts[1:])   # decoded argument bytes (hex args halved)
+        sizes[next((lab for lim, lab in buckets if n <= lim), ">4096")] += 1
+        if i < len(impl):
+            first = split_impl(impl[i])[0].split(" ", 1)[0][:14]
+            if re.fullmatch(r"x[0-9a-f]*", first):
+                first = "x<text>"
+            classes[first] += 1
+    distribution = {"operations": dict(ops.most_common(40)),
+                    "argument_bytes": {lab: sizes[lab] for _, lab in buckets + [(0, ">4096")] if sizes[lab]},
+                    "impl_response_first_token": dict(classes.most_common(16)),
+                    "corpus_requests": ncorpus if not a.replay else 0,
+                    "nontrivial_share": round(len(nontrivial) / max(1, len(reqs)), 4)}
+
     violations = 0
     lines = []
     for fid, cases in sorted(oracle_known.items()):
@@ -410,6 +431,7 @@ def main(argv):
              "oracle_failures_new": len(oracle_new),
              "requests_answered_by_impl_only": unmodelled,
              "requests_skipped_after_crash_budget": skipped,
+             "input_distribution": distribution,
              "axioms": pr.get("axioms"), "proof_failures": pr["failed"][:5]}
     if trans_info:
         extra["translator"] = trans_info
